@@ -82,7 +82,7 @@ def failfast(ctx):
 def validate_traces(ctx, traces, tag="c03T"):
     wd = tlc.workdir(tag)
     paths = []
-    for i, sh in enumerate(tlc.shard(traces, max(1, min(tlc.NCPU, len(traces) // 150)))):
+    for i, sh in enumerate(tlc.shard(traces, max(1, min(tlc.NCPU // 2, len(traces) // 600)))):
         p = os.path.join(wd, "tr%d.ndjson" % i)
         tlc.write_ndjson(p, [{"t": t["t"], "fmt": t["fmt"], "ev": t["ev"]} for t in sh])
         paths.append((p, "%s%d" % (tag, i)))
@@ -225,7 +225,7 @@ def run(ctx):
     gens = ([("IspecGen_all8_quick.cfg", "all8", None), ("IspecGen_quick.cfg", "exhaustive", None),
              ("IspecSim.cfg", "simulated", "num=40")] if quick else
             [("IspecGen_all8_thorough.cfg", "all8", None), ("IspecGen_thorough.cfg", "exhaustive", None),
-             ("IspecSim.cfg", "simulated", "num=1500")])
+             ("IspecSim.cfg", "simulated", "num=600")])
     for cfg, kind, sim in gens:
         gen_and_replay(ctx, cfg, kind, simulate=sim, depth=16 if sim else None)
         if failfast(ctx):
